@@ -234,7 +234,12 @@ func (in *Interp) yield() {
 		in.spRecord()
 		return
 	}
+	// the pending-scheduling-point flag belongs to this goroutine: goroutines that run while it
+	// is switched out set and consume the flag for their own operations
+	pending := in.spPending
+	in.spPending = false
 	in.reschedule(s.cur, false)
+	in.spPending = pending
 	in.spRecord()
 }
 
